@@ -118,4 +118,54 @@ def subsetSize (keyPeers : List Peer) (thr : Int) (rdy : List Peer) : Nat :=
   let n := (readyParticipants keyPeers rdy).length
   if 1 ≤ thr + 1 ∧ thr + 1 ≤ n then (thr + 1).toNat else n
 
+/-! ### a Signing object that is run more than once (the coordinator retries a session on the same object) -/
+
+/-- the part of `Signing` the release rule reads -/
+structure SigningObj where
+  coordinator : Bool
+deriving DecidableEq, Repr
+
+/-- `Run(ctx, coordinator, …)`: `s.coordinator = coordinator` — an assignment, whatever the flag was before and however
+    the run ends -/
+def SigningObj.run (_o : SigningObj) (coordinator : Bool) : SigningObj := ⟨coordinator⟩
+
+/-- the object after the runs `roles` (`none`: never run — `processEndMessage` does not exist yet) -/
+def afterRuns : List Bool → Option SigningObj
+  | [] => none
+  | c :: cs => some (cs.foldl SigningObj.run ⟨c⟩)
+
+/-- what `processEndMessage` hands out when the signature arrives after those runs -/
+def releaseAfterRuns (roles : List Bool) : Option Released := (afterRuns roles).map fun o => releaseECDSA o.coordinator
+
+/-! ### resharing: what the library is told -/
+
+/-- the four numbers `Resharing.Run` passes to `tss.NewReSharingParameters` -/
+structure ReshareParams where
+  oldThreshold : Int
+  oldCount     : Nat
+  newThreshold : Int
+  newCount     : Nat
+deriving DecidableEq, Repr
+
+/-- old committee and old threshold come from the START PARAMETERS, new committee = the peer store, new threshold = the
+    process's own (the one the refreshed share will be stored under) -/
+def reshareParams (sp : StartParams) (newThreshold : Int) (peerstore : List Peer) : ReshareParams :=
+  ⟨sp.oldThreshold, sp.oldSubset.length, newThreshold, peerstore.length⟩
+
+/-- `tss.Parameters.Validate` as observed: 0 < threshold < party count, on both sides (library behaviour, assumed) -/
+def ReshareParams.libOk (r : ReshareParams) : Bool :=
+  decide (0 < r.oldThreshold) && decide (r.oldThreshold < r.oldCount) &&
+  decide (0 < r.newThreshold) && decide (r.newThreshold < r.newCount)
+
+/-! ### Bitcoin: one signing session per transaction input -/
+
+/-- what `executeResourceProps` hands to `signing.NewSigning` for one input -/
+structure SigningStart where
+  sessionId : String   -- `hex.EncodeToString(signingHash)` of THIS input
+  msg       : Bytes    -- the digest this process signs
+deriving DecidableEq, Repr
+
+/-- for the per-input taproot signature hashes `digests` of one transaction -/
+def btcSignings (digests : List Bytes) : List SigningStart := digests.map fun d => ⟨toHex d, d⟩
+
 end Sygma.C08
